@@ -283,7 +283,16 @@ def render(cg, algo="lane", backend="table"):
     gp = cg.get("grammar_param")
     lines.append("grammar%s;" % (("(%s: usize)" % gp) if gp else ""))
     cfg = cg.get("cfg") or {"nt": {}, "alt": {}, "t": {}}
-    conv = ", ".join('%s"%s" => Tok::T%d(<usize>)' % (cfg_attrs(cfg["t"].get(t, [])), t, i) for i, t in enumerate(cg["ts"]))
+    convs = []
+    for i, t in enumerate(cg["ts"]):
+        alt = (cg.get("conv2") or {}).get(t)
+        if alt:
+            # two conversions for one terminal under complementary predicates: exactly one survives
+            convs.append('#[cfg(%s)] "%s" => Tok::T%d(<usize>)' % (render_pred(alt["pred"]), t, i))
+            convs.append('#[cfg(not(%s))] "%s" => Tok::T%d(<usize>)' % (render_pred(alt["pred"]), t, alt["kind"]))
+        else:
+            convs.append('%s"%s" => Tok::T%d(<usize>)' % (cfg_attrs(cfg["t"].get(t, [])), t, i))
+    conv = ", ".join(convs)
     lines.append("extern { type Location = usize; type Error = UErr; enum Tok { %s } }" % conv)
     for nt in cg["nts"]:
         alts = [p for p in cg["prods"] if p["lhs"] == nt]
@@ -518,3 +527,22 @@ def long_inputs(cg, start, rng, k=6, target=24):
         if s not in res and len(s) > 0:
             res.append(s)
     return res
+
+
+def pred_holds(p, feats):
+    """(population side only: which token kind the harness has to feed; the specification evaluates
+    predicates in Cfg.tla)"""
+    if p["k"] == "feature":
+        return p["n"] in feats
+    if p["k"] == "not":
+        return not pred_holds(p["a"], feats)
+    if p["k"] == "all":
+        return all(pred_holds(x, feats) for x in p["args"])
+    return any(pred_holds(x, feats) for x in p["args"])
+
+
+def tok_kind(cg, t):
+    alt = (cg.get("conv2") or {}).get(t)
+    if alt and not pred_holds(alt["pred"], cg.get("features", [])):
+        return alt["kind"]
+    return cg["ts"].index(t)
